@@ -33,6 +33,54 @@ class NF:
         return f"NF({self.nan},{self.val})"
 
 
+F32 = z3.FPSort(8, 24)
+F64 = z3.FPSort(11, 53)
+RNE = z3.RNE()
+
+
+def is_fp(x):
+    return isinstance(x, z3.FPRef)
+
+
+def fp_sort_of(bits):
+    return F32 if bits == 32 else F64
+
+
+def fp_const(v, sort):
+    """python number -> FP numeral of the given sort (correctly rounded)"""
+    if isinstance(v, bool):
+        v = int(v)
+    if isinstance(v, Fraction):
+        return z3.fpRealToFP(RNE, z3.RealVal(v), sort)
+    if isinstance(v, float) and v != v:
+        return z3.fpNaN(sort)
+    return z3.FPVal(v, sort)
+
+
+def fp_cast(x, sort):
+    if is_fp(x):
+        return x if x.sort() == sort else z3.fpFPToFP(RNE, x, sort)
+    if isinstance(x, z3.ArithRef):
+        return z3.fpRealToFP(RNE, z3.ToReal(x) if x.is_int() else x, sort)
+    if isinstance(x, z3.BoolRef):
+        return z3.If(x, z3.FPVal(1, sort), z3.FPVal(0, sort))
+    return fp_const(x, sort)
+
+
+def _fp_promote(a, b):
+    """C usual arithmetic conversions among float / double / integers"""
+    sa = a.sort() if is_fp(a) else None
+    sb = b.sort() if is_fp(b) else None
+    # a python float / Fraction stands for a C double literal or double variable
+    if sa is None and isinstance(a, (float, Fraction)):
+        sa = F64
+    if sb is None and isinstance(b, (float, Fraction)):
+        sb = F64
+    cands = [x for x in (sa, sb) if x is not None]
+    sort = F64 if any(x == F64 for x in cands) else F32
+    return fp_cast(a, sort), fp_cast(b, sort)
+
+
 def is_sym(x):
     return isinstance(x, (z3.ExprRef, NF))
 
@@ -150,6 +198,8 @@ def truth(x):
         return or_(x.nan, ne(x.val, 0))
     if isinstance(x, z3.ArithRef):
         return ne(x, 0)
+    if is_fp(x):
+        return z3.Not(z3.fpIsZero(x))
     if x is None:
         return False
     if hasattr(x, "item"):
@@ -171,6 +221,14 @@ def ite(c, a, b):
     if isinstance(a, NF) or isinstance(b, NF):
         a, b = to_nf(a), to_nf(b)
         return NF(ite(c, a.nan, b.nan), ite(c, a.val, b.val))
+    if is_fp(a) or is_fp(b):
+        if is_fp(a) and is_fp(b) and a.sort() != b.sort():
+            a, b = _fp_promote(a, b)
+        elif not is_fp(a):
+            a = fp_cast(a, b.sort())
+        elif not is_fp(b):
+            b = fp_cast(b, a.sort())
+        return z3.If(c, a, b)
     if isinstance(a, bool) and isinstance(b, bool):
         if a == b:
             return a
@@ -205,9 +263,12 @@ def _nf2(op, a, b):
     return NF(or_(a.nan, b.nan), op(a.val, b.val))
 
 
-def _arith(a, b, pyop, zop):
+def _arith(a, b, pyop, zop, fpop=None):
     if a is UNDEF or b is UNDEF:
         return UNDEF
+    if is_fp(a) or is_fp(b):
+        a, b = _fp_promote(a, b)
+        return fpop(RNE, a, b)
     if isinstance(a, NF) or isinstance(b, NF):
         return _nf2(lambda x, y: _arith(x, y, pyop, zop), a, b)
     a, b = b2i(a), b2i(b)
@@ -230,7 +291,7 @@ def add(a, b):
         return a
     if not is_sym(a) and not isinstance(a, bool) and a == 0 and not isinstance(a, float):
         return b
-    return _arith(a, b, lambda x, y: x + y, lambda x, y: x + y)
+    return _arith(a, b, lambda x, y: x + y, lambda x, y: x + y, z3.fpAdd)
 
 
 def sub(a, b):
@@ -238,7 +299,7 @@ def sub(a, b):
         return UNDEF
     if not is_sym(b) and not isinstance(b, bool) and b == 0 and not isinstance(b, float):
         return a
-    return _arith(a, b, lambda x, y: x - y, lambda x, y: x - y)
+    return _arith(a, b, lambda x, y: x - y, lambda x, y: x - y, z3.fpSub)
 
 
 def mul(a, b):
@@ -248,14 +309,16 @@ def mul(a, b):
         if not is_sym(p) and not isinstance(p, (bool, float)):
             if p == 1:
                 return b2i(q)
-            if p == 0 and not isinstance(q, NF):
+            if p == 0 and not isinstance(q, NF) and not is_fp(q):
                 return 0
-    return _arith(a, b, lambda x, y: x * y, lambda x, y: x * y)
+    return _arith(a, b, lambda x, y: x * y, lambda x, y: x * y, z3.fpMul)
 
 
 def neg(a):
     if a is UNDEF:
         return UNDEF
+    if is_fp(a):
+        return z3.fpNeg(a)
     if isinstance(a, NF):
         return NF(a.nan, neg(a.val))
     a = b2i(a)
@@ -272,6 +335,9 @@ def div(a, b):
     """true division (real result); caller handles the divisor == 0 event"""
     if a is UNDEF or b is UNDEF:
         return UNDEF
+    if is_fp(a) or is_fp(b):
+        a, b = _fp_promote(a, b)
+        return z3.fpDiv(RNE, a, b)
     if isinstance(a, NF) or isinstance(b, NF):
         return _nf2(div, a, b)
     a, b = b2i(a), b2i(b)
@@ -350,6 +416,8 @@ def to_real(x):
 def abs_(x):
     if x is UNDEF:
         return UNDEF
+    if is_fp(x):
+        return z3.fpAbs(x)
     if isinstance(x, NF):
         return NF(x.nan, abs_(x.val))
     x = b2i(x)
@@ -368,9 +436,12 @@ def _leaves(x):
     return None
 
 
-def _cmp(a, b, pyop, zop, nan_result):
+def _cmp(a, b, pyop, zop, nan_result, fpop=None):
     if a is UNDEF or b is UNDEF:
         return False
+    if is_fp(a) or is_fp(b):
+        a, b = _fp_promote(a, b)
+        return fpop(a, b)
     if isinstance(a, NF) or isinstance(b, NF):
         a, b = to_nf(a), to_nf(b)
         r = _cmp(a.val, b.val, pyop, zop, nan_result)
@@ -411,27 +482,27 @@ def _ne(x, y):
 
 
 def lt(a, b):
-    return _cmp(a, b, lambda x, y: x < y, lambda x, y: x < y, False)
+    return _cmp(a, b, lambda x, y: x < y, lambda x, y: x < y, False, z3.fpLT)
 
 
 def le(a, b):
-    return _cmp(a, b, lambda x, y: x <= y, lambda x, y: x <= y, False)
+    return _cmp(a, b, lambda x, y: x <= y, lambda x, y: x <= y, False, z3.fpLEQ)
 
 
 def gt(a, b):
-    return _cmp(a, b, lambda x, y: x > y, lambda x, y: x > y, False)
+    return _cmp(a, b, lambda x, y: x > y, lambda x, y: x > y, False, z3.fpGT)
 
 
 def ge(a, b):
-    return _cmp(a, b, lambda x, y: x >= y, lambda x, y: x >= y, False)
+    return _cmp(a, b, lambda x, y: x >= y, lambda x, y: x >= y, False, z3.fpGEQ)
 
 
 def eq(a, b):
-    return _cmp(a, b, _eq, lambda x, y: x == y, False)
+    return _cmp(a, b, _eq, lambda x, y: x == y, False, z3.fpEQ)
 
 
 def ne(a, b):
-    return _cmp(a, b, _ne, lambda x, y: x != y, True)
+    return _cmp(a, b, _ne, lambda x, y: x != y, True, lambda x, y: z3.Not(z3.fpEQ(x, y)))
 
 
 def min_c(a, b):
@@ -459,6 +530,12 @@ def model_value(m, x):
     if not isinstance(x, z3.ExprRef):
         return x
     v = m.eval(x, model_completion=True)
+    if is_fp(v):
+        import struct
+        bv = z3.simplify(z3.fpToIEEEBV(v)).as_long()
+        if v.sort() == F32:
+            return struct.unpack("<f", struct.pack("<I", bv))[0]
+        return struct.unpack("<d", struct.pack("<Q", bv))[0]
     if z3.is_true(v):
         return True
     if z3.is_false(v):
